@@ -22,6 +22,9 @@ OBLIGATIONS = [
     (P + "saveComplete_wellformed", "so are complete saves"),
     (P + "saveComplete_is_crash", "the complete save is a crash state (non-vacuity of Crash)"),
     (P + "old_is_crash", "the earlier file is a crash state"),
+    (P + "history_load_partial", "any history of saves/crashed saves/loads/removes/gc/clock moves from an empty directory: a load returns a (deadline,data) pair one save of that sid was called with, not past — under Admissible (CollisionFree at each crashed save)"),
+    (P + "collisionFree_single_fresh", "CollisionFree holds (non-vacuity) for a one-byte value over no file, all S/now/t"),
+    (P + "collisionFree_single_over", "CollisionFree holds for a one-byte value over an earlier one-byte value, all S/now"),
     (P + "load_removes_bad_files", "load returning no session leaves no file under that sid"),
     (P + "load_keeps_good_files", "successful load changes nothing; load never touches another file"),
     (P + "gc_never_removes_live", "gc keeps, unchanged, every file a load would accept at that clock"),
@@ -94,7 +97,9 @@ def gen_old(rng, sid, now, big):
         if rng.random() < 0.5:
             rec = rec[:len(rec) - rng.randrange(1, len(d) + 1)]
         else:
-            rec[rng.randrange(8, len(rec))] ^= 1 << rng.randrange(8)
+            # flip one bit of the crc, the low size byte or the data (a high size bit would only buy a giant allocation)
+            pos = rng.choice([q for q in range(8, len(rec)) if not 13 <= q <= 15])
+            rec[pos] ^= 1 << rng.randrange(8)
         return [f"put {sid} {hexs(bytes(rec))}"], len(rec) >= 16
     if r < 0.9:                                                       # garbage with a plausible header (size kept small)
         g = struct.pack("<qII", t0, rng.getrandbits(32), rng.choice((0, 1, 5, 40, 600, 70000))) + rb(rng, rng.randrange(0, 700))
@@ -314,7 +319,7 @@ def judge(c, model, cases, metas, out_i):
         ops = split_ops(line)
         outs = o.split(" | ")
         if len(outs) != len(ops):
-            if o != "bad-op":
+            if o != "bad-op" and not o.startswith("<harness died"):
                 bad.append((k, f"implementation answered {len(outs)} ops of {len(ops)}: {o[:200]}"))
             continue
         now = 0
@@ -403,7 +408,7 @@ def finding_witnesses(c, model, hbin):
         stored = [l.strip() for l in open(cpath) if l.strip() and not l.startswith("#")]
         if stored != wl[:2]:
             c.broke("corpus witness drift", "gen/corpus/C18/00-crc32-torn-mixture.txt differs from Witness.lean (as printed by the driver)")
-    out_i, out_m, diffs, crashed = c.correspond("finding-witnesses", wl[:2], hbin, model)
+    out_i, out_m, diffs, crashed = c.correspond("finding-witnesses", wl[:2], hbin, model, timeout=120)
     reproduced = []
     for n in (0, 1):
         if n >= len(out_i):
@@ -422,8 +427,8 @@ def finding_witnesses(c, model, hbin):
         c.log(f"witness {n+1}: impl load = {outs[il][:60]}… judge allowed={verdict} expected-recorded={'yes' if outs[il] == wl[2+n] else 'no'}")
         if verdict == "1":
             c.log(f"witness {n+1}: the implementation no longer returns a torn value for this witness (finding does not reproduce)")
-        elif verdict == "0" and outs[il] == wl[2 + n] and out_i[n] == out_m[n]:
-            reproduced.append(n + 1)
+        elif verdict == "0" and outs[il] == wl[2 + n]:
+            reproduced.append(n + 1)        # exactly the recorded torn value (a model/impl diff elsewhere is the main stream's business)
         else:
             c.violation("finding witness fails differently from what is recorded",
                         {"case": wl[n], "impl_output": out_i[n], "model_output": out_m[n] if n < len(out_m) else None})
@@ -439,6 +444,9 @@ def finding_witnesses(c, model, hbin):
 
 def main():
     c = Check("C18")
+    # read_from_file allocates `size` bytes before it knows the file is that long; a code change that makes headers garbage would
+    # otherwise cost a multi-GiB zero-fill per load.  Generators on the clean tree never exceed 100 000.
+    os.environ.setdefault("ASAN_OPTIONS", "detect_leaks=0:abort_on_error=0:allocator_may_return_null=1:max_allocation_size_mb=512")
     c.rule = ("cases = scripts over a fresh directory run on the real session_file_storage (write()/time() interposed at link time) "
               "and on the Lean model: crash scripts [earlier state (absent | real save shorter/equal/longer/with leftover | python-built "
               "record | truncated/bit-flipped record | garbage | short file); probe; csave at crash point (k writes, j bytes) with sector "
@@ -489,8 +497,20 @@ def main():
             finding_witnesses(c, model, hbin)
         idx = {l: i for i, l in enumerate(cases)}
         out_i, out_m, diffs, crashed = c.correspond(
-            "scripts", cases, hbin, model,
+            "scripts", cases, hbin, model, timeout=(1500 if c.tier == "thorough" else 400),
             nontrivial=lambda cs, o: nontrivial_key(metas[idx[cs]], cs, o))
+        # the harness died (sanitizer abort): keep going behind the fatal case so that the judge sees the other cases too
+        restarts = 0
+        while crashed and crashed["rc"] != 124 and len(out_i) < len(cases) and restarts < 25:
+            restarts += 1
+            out_i.append("<harness died: " + (crashed["stderr"].strip().splitlines() or ["?"])[-1][:150] + ">")
+            rc_r, o_r, e_r = c.run_lines(hbin, cases[len(out_i):], timeout=400)
+            out_i += o_r
+            if rc_r == 0:
+                break
+            crashed = dict(crashed, stderr=crashed["stderr"] if restarts > 1 else crashed["stderr"])
+            if rc_r == 124:
+                break
         pick = [0, len(cases) // 3, len(cases) // 2, len(cases) - 1] if len(cases) > 4 else range(len(cases))
         c.samples = [{"case": cases[i][:600], "impl": (out_i[i] if i < len(out_i) else None or "")[:600],
                       "model": (out_m[i] if i < len(out_m) else None or "")[:600]} for i in pick]
@@ -501,8 +521,6 @@ def main():
         c.extra_cov["crash_scripts_judged"] = sum(1 for m in metas if m.get("kind") == "crash" and m["judge"])
         c.extra_cov["crash_scripts_torn"] = sum(1 for m in metas if m.get("kind") == "crash" and m["torn"])
         bad = judge(c, model, cases, metas, out_i)
-        if crashed:
-            c.violation("sanitizer abort / crash of the real code", {"case": crashed["case"], "stderr": crashed["stderr"]})
         wit = set()
         if os.path.exists(model):
             rc, wl, _ = c.run_lines(model, ["witness 1", "witness 2"])
@@ -514,6 +532,9 @@ def main():
                         {"case": cases[k], "meta": metas[k], "impl_output": out_i[k][:4000],
                          "model_output": out_m[k][:4000] if k < len(out_m) else None,
                          "replay_cmd": "bin/check C18 --replay <this file>"})
+        if crashed:
+            c.violation("timeout of the real code (400 s)" if crashed["rc"] == 124 else "sanitizer abort / crash of the real code",
+                        {"case": crashed["case"], "stderr": crashed["stderr"]})
         if diffs and not c.violations:
             k, cs, a, b = diffs[0]
             c.broke("correspondence stream scripts", f"{len(diffs)} differing cases; first: {cs[:1500]}\n impl ={a[:1500]}\n model={b[:1500]}")
@@ -529,7 +550,7 @@ def main():
                 more.append(seq_case(c.rng, 700))
             mc = [l for l, _ in more]
             mm = [m for _, m in more]
-            rc2, o2, e2 = c.run_lines(hbin, mc)
+            rc2, o2, e2 = c.run_lines(hbin, mc, timeout=400)
             c.evaluations += len(o2)
             bad2 = judge(c, model, mc[:len(o2)], mm[:len(o2)], o2)
             if rc2 != 0 and len(o2) < len(mc):
